@@ -66,3 +66,9 @@ pub fn take_persistent() -> Option<String> {
     let i = NEXT_PERSISTENT.fetch_add(1, Ordering::SeqCst);
     p.get(i).cloned()
 }
+
+/// Skips `n` pool keys (used by a process that continues a history whose
+/// last steps ran in another process and may have drawn keys there).
+pub fn skip(n: usize) {
+    NEXT_PERSISTENT.fetch_add(n, Ordering::SeqCst);
+}
